@@ -111,6 +111,13 @@ func execC05(seg []Ev) []Ev {
 				e["atstart"] = true
 				e["fresh"] = fresh(curInput)
 			}
+		case "sameopts": // every option setter called again with the value the option already has, in the middle of a stream
+			if toInt(orZero(in["rev"])) == 1 {
+				setOptsRev(t, bits)
+			} else {
+				setOpts(t, bits)
+			}
+			e["opts"] = optList(bits)
 		case "rewind": // the same scanner object, reset and attached again
 			e["input"] = cps(curInput)
 			e["fresh"] = fresh(curInput)
@@ -291,6 +298,19 @@ func genC05(g *Gen) {
 					seg = append(seg, Ev{"op": "next"})
 				}
 				g.Run("options set after the reader was attached:"+kind, seg)
+				// the setters called again with unchanged values between a has-next query and the fetch: nothing is lost or repeated
+				seg2 := []Ev{{"op": "new", "kind": kind, "opts": toAnyList(optList(b))}, {"op": "setreader", "input": cps(x)}}
+				for j := 0; j < len(x)+2; j++ {
+					switch j % 3 {
+					case 0:
+						seg2 = append(seg2, Ev{"op": "hasnext"}, Ev{"op": "sameopts", "rev": j % 2}, Ev{"op": "next"})
+					case 1:
+						seg2 = append(seg2, Ev{"op": "sameopts", "rev": 1}, Ev{"op": "hasnext"}, Ev{"op": "hasnext"}, Ev{"op": "next"})
+					default:
+						seg2 = append(seg2, Ev{"op": "next"})
+					}
+				}
+				g.Run("option setters called again with unchanged values in the middle of a stream:"+kind, seg2)
 			}
 		}
 		// (3) random longer sequences under option sets and the tokenizer's own defaults
